@@ -42,6 +42,9 @@ type travModel struct {
 	// cursor by the invariant cc = N.fingers[L + ccOff], assumed at the start of a segment and proved at every arrival
 	cc    map[*ssa.BasicBlock]*ssa.Phi
 	ccOff map[*ssa.BasicBlock]int64
+	// ghost: the head carries no node register at all - the cursor is the (unnamed) node whose finger slice the
+	// head's slice register holds; it is named by a ghost symbol and recovered at arrivals from slice = N'.fingers
+	ghost map[*ssa.BasicBlock]bool
 	LT    int64
 	GT    int64
 	// results
@@ -49,6 +52,22 @@ type travModel struct {
 	nTests              int
 	probe               bool // first pass: only collect the index offset, report nothing
 	cIdx                *int64
+}
+
+// cursorAt: the term naming the cursor at head h in state st (its register, or the ghost symbol).
+func (m *travModel) cursorAt(h *ssa.BasicBlock, st *ir.State) *ir.Term {
+	if m.node[h] != nil && !m.ghost[h] {
+		return st.Reg(m.node[h])
+	}
+	return &ir.Term{Op: "sym", Aux: fmt.Sprintf("cursor@b%d", h.Index)}
+}
+
+// nodeOfFingers: t = N.fingers for some node term N.
+func nodeOfFingers(t *ir.Term) *ir.Term {
+	if t != nil && t.Op == "load" && len(t.Args) == 1 && t.Args[0].Op == "faddr" && t.Args[0].Aux == fFingers && len(t.Args[0].Args) == 1 {
+		return t.Args[0].Args[0]
+	}
+	return nil
 }
 
 func fingersOf(n *ir.Term) *ir.Term {
@@ -323,7 +342,7 @@ func traversalRule(c *core.Ctx, name string, fn *ssa.Function, LT, GT int64) str
 	if problems(c, "compare-normal-form", name, an) {
 		return ""
 	}
-	m := &travModel{c: c, name: name, fn: fn, an: an, node: map[*ssa.BasicBlock]*ssa.Phi{}, nx: map[*ssa.BasicBlock]*ssa.Phi{}, cc: map[*ssa.BasicBlock]*ssa.Phi{}, ccOff: map[*ssa.BasicBlock]int64{}, LT: LT, GT: GT, okCmp: true, okLvl: true, okEff: true}
+	m := &travModel{c: c, name: name, fn: fn, an: an, node: map[*ssa.BasicBlock]*ssa.Phi{}, nx: map[*ssa.BasicBlock]*ssa.Phi{}, cc: map[*ssa.BasicBlock]*ssa.Phi{}, ccOff: map[*ssa.BasicBlock]int64{}, ghost: map[*ssa.BasicBlock]bool{}, LT: LT, GT: GT, okCmp: true, okLvl: true, okEff: true}
 	second := map[*ssa.BasicBlock]*ssa.Phi{}
 	if len(an.Headers) == 0 {
 		c.Undecided("level-loops", name, fn.Pos(), "the traversal has no loop")
@@ -378,7 +397,13 @@ func traversalRule(c *core.Ctx, name string, fn *ssa.Function, LT, GT int64) str
 					if q.To != h {
 						continue
 					}
-					idx, ok := isFingerAt(q.PhiOut[cache], q.PhiOut[cur])
+					cv, nv := q.PhiOut[cache], q.PhiOut[cur]
+					// the finger slice cached at the head the path starts from stands for its node's fingers
+					if q.From != nil && m.nx[q.From] != nil && m.node[q.From] != nil && an.Start[q.From] != nil {
+						nxSym, ndSym := an.Start[q.From].Reg(m.nx[q.From]), an.Start[q.From].Reg(m.node[q.From])
+						cv, nv = substTerm(cv, nxSym, fingersOf(ndSym)), substTerm(nv, nxSym, fingersOf(ndSym))
+					}
+					idx, ok := isFingerAt(cv, nv)
 					if !ok {
 						return 0, false
 					}
@@ -398,10 +423,6 @@ func traversalRule(c *core.Ctx, name string, fn *ssa.Function, LT, GT int64) str
 			}
 			return d, n > 0
 		}
-		if m.nx[h] != nil {
-			c.Undecided("traversal-effects", name, b.Pos(), "a loop head carries two node registers and a finger-slice register")
-			return ""
-		}
 		if d, ok := role(a, b); ok {
 			m.cc[h], m.ccOff[h] = b, d
 		} else if d, ok := role(b, a); ok {
@@ -411,9 +432,87 @@ func traversalRule(c *core.Ctx, name string, fn *ssa.Function, LT, GT int64) str
 			return ""
 		}
 	}
+	// heads without a node register but with a finger-slice register: the cursor is a ghost
 	for _, h := range an.Headers {
-		if m.node[h] == nil {
-			c.Undecided("traversal-effects", name, fn.Pos(), "a loop of the traversal carries no node cursor")
+		if m.node[h] == nil && m.nx[h] != nil {
+			m.ghost[h] = true
+		}
+	}
+	// heads with one node register and a finger-slice register: the node register is the cursor (slice = node.fingers
+	// at every arrival) or the cached successor of a ghost cursor (node = N'.fingers[level+d] with slice = N'.fingers)
+	for _, h := range an.Headers {
+		P := m.node[h]
+		if P == nil || m.nx[h] == nil || second[h] != nil {
+			continue
+		}
+		arrive := func(asGhost bool) (xs, ps, ls []*ir.Term) {
+			for _, ps2 := range an.Segs {
+				for _, q := range ps2 {
+					if q.To != h {
+						continue
+					}
+					xv, pv := q.PhiOut[m.nx[h]], q.PhiOut[P]
+					if q.From != nil && m.nx[q.From] != nil && an.Start[q.From] != nil {
+						var src *ir.Term
+						if q.From == h && asGhost || m.ghost[q.From] {
+							src = &ir.Term{Op: "sym", Aux: fmt.Sprintf("cursor@b%d", q.From.Index)}
+						} else if m.node[q.From] != nil {
+							src = an.Start[q.From].Reg(m.node[q.From])
+						}
+						if src != nil {
+							nxSym := an.Start[q.From].Reg(m.nx[q.From])
+							xv, pv = substTerm(xv, nxSym, fingersOf(src)), substTerm(pv, nxSym, fingersOf(src))
+						}
+					}
+					var lq *ir.Term
+					if h == m.hL {
+						lq = q.PhiOut[m.lp]
+					} else if q.End != nil {
+						lq = q.End.Reg(m.lp)
+					}
+					xs, ps, ls = append(xs, xv), append(ps, pv), append(ls, lq)
+				}
+			}
+			return
+		}
+		isCursor := true
+		xs, pv, _ := arrive(false)
+		for i := range xs {
+			if !ir.Same(xs[i], fingersOf(pv[i])) {
+				isCursor = false
+			}
+		}
+		if isCursor && len(xs) > 0 {
+			continue
+		}
+		xs, pv, ls := arrive(true)
+		okCand, n, d := len(xs) > 0, 0, int64(0)
+		for i := range xs {
+			nd := nodeOfFingers(xs[i])
+			if nd == nil {
+				okCand = false
+				break
+			}
+			idx, isF := isFingerAt(pv[i], nd)
+			if !isF {
+				okCand = false
+				break
+			}
+			k, isK := linOffset(idx, ls[i])
+			if !isK || (n > 0 && k != d) {
+				okCand = false
+				break
+			}
+			d = k
+			n++
+		}
+		if okCand {
+			m.ghost[h], m.cc[h], m.ccOff[h] = true, P, d
+		}
+	}
+	for _, h := range an.Headers {
+		if m.node[h] == nil && !m.ghost[h] {
+			c.Undecided("traversal-effects", name, fn.Pos(), "a loop of the traversal carries neither a node cursor nor a finger-slice cursor")
 			return ""
 		}
 	}
@@ -465,7 +564,7 @@ func (m *travModel) segment(p *ir.Path, list, head, pathT *ir.Term, recordsPath 
 	var n, x, l *ir.Term
 	if from != nil {
 		st := an.Start[from]
-		n = st.Reg(m.node[from])
+		n = m.cursorAt(from, st)
 		if m.nx[from] != nil {
 			x = st.Reg(m.nx[from])
 		}
@@ -499,9 +598,21 @@ func (m *travModel) segment(p *ir.Path, list, head, pathT *ir.Term, recordsPath 
 	// arrival values
 	var n2, x2, l2 *ir.Term
 	if to != nil {
-		n2 = sigma(p.PhiOut[m.node[to]])
 		if m.nx[to] != nil {
 			x2 = sigma(p.PhiOut[m.nx[to]])
+		}
+		if m.ghost[to] {
+			// the arriving cursor is the node whose fingers the slice register receives
+			n2 = nodeOfFingers(x2)
+			if n2 == nil {
+				if !m.probe {
+					m.c.Undecided("traversal-effects", m.name, lastPos(p), "the finger-slice cursor arrives as %s, which is not some node's finger slice", short(x2))
+				}
+				m.okEff = false
+				return
+			}
+		} else {
+			n2 = sigma(p.PhiOut[m.node[to]])
 		}
 		if to == m.hL {
 			l2 = p.PhiOut[m.lp]
